@@ -43,7 +43,7 @@ MIN_COUNTERS = {
               'rt_histories': 100, 'multi_client_histories': 150,
               'sync_blocks_checked': 150, 'sync_points_observed': 150,
               'exit_fault_blocks_checked': 200, 'literal_int_targets': 300,
-              'blocks_held_open_checked': 15, 'alive_pings_on_wire': 10,
+              'blocks_held_open_checked': 15, 'alive_ticks_inside_open_blocks': 15,
               'clumped_blocks_checked': 5,
               'oracle_selftests': 1},
     'thorough': {'ops_compared': 1_500_000, 'messages_grammar_checked': 1_500_000,
@@ -52,7 +52,7 @@ MIN_COUNTERS = {
                  'rt_histories': 1000, 'multi_client_histories': 5000,
                  'sync_blocks_checked': 3000, 'sync_points_observed': 3000,
                  'exit_fault_blocks_checked': 5000, 'literal_int_targets': 5000,
-                 'blocks_held_open_checked': 300, 'alive_pings_on_wire': 200,
+                 'blocks_held_open_checked': 300, 'alive_ticks_inside_open_blocks': 300,
                  'clumped_blocks_checked': 100,
                  'oracle_selftests': 1},
 }
@@ -133,8 +133,17 @@ def run_shard(spec, acc):
     if kind == 'rtsync':
         run_sync_shard(spec, acc, m, main, server, cap, ledger)
         return
-    if kind == 'rtalive' and not start_alive(acc, server, cap):
-        return
+    ticks = []
+    if kind == 'rtalive':
+        if not start_alive(acc, server, cap):
+            return
+        # the watcher publishes 'bundling' each time its alive routine wakes
+        # up (and pings) while a bind() block is open: evidence that a ping
+        # fell inside a held block, observable on the unchanged tree too
+        from sc3.base import model as mdl
+        listener = Mods()            # kept alive by this frame
+        mdl.NotificationCenter.register(server, 'bundling', listener,
+                                        lambda *a: ticks.append(1))
 
     for i in iter_cases(spec):
         rng = case_rng(spec['seed'], 'C17', kind, i)
@@ -207,6 +216,7 @@ def run_shard(spec, acc):
         if kind == 'rtalive':
             acc.count('alive_histories')
             acc.counters['alive_pings_on_wire'] = cap.bg_status
+            acc.counters['alive_ticks_inside_open_blocks'] = len(ticks)
         if kind == 'rtbig':
             acc.count('big_block_histories')
         if multi:
